@@ -49,6 +49,9 @@ def _worker(arg):
                          'assumed': [], 'stores': [], 'notes': [], 'special': []}
             continue
         r = dict(asmint.analyse_func(name, entry, insns, summaries, th))
+        w0, cl = asmint.written_gprs(entry, insns)
+        r['gprw0'] = sorted(w0)
+        r['callees0'] = sorted(c for c in cl if c)
         # map interesting addresses to source lines
         addrs = set(e['a'] for e in r['exits']) | set(s['a'] for s in r['stores']) | set(r['assumed']) | \
             set(i[1] for i in r['issues'] if isinstance(i[1], int)) | set(x[0] for x in r['special']) | {entry}
@@ -113,11 +116,28 @@ def _stage():
                 sections[rel] = secs
                 funcs_of[rel] = fns
             new = {}
+            # transitive GPR write sets over the asm call graph (unknown callee = everything caller-saved)
+            w0 = {}
+            cl = {}
+            for rel, fr in results.items():
+                for name, r in fr.items():
+                    w0[name] = set(r.get('gprw0', asmint.CALLER))
+                    cl[name] = r.get('callees0', [])
+            wt = {n: set(v) for n, v in w0.items()}
+            changed_w = True
+            while changed_w:
+                changed_w = False
+                for n in wt:
+                    for c in cl[n]:
+                        add = wt[c] if c in wt else set(asmint.CALLER)
+                        if not add <= wt[n]:
+                            wt[n] |= add
+                            changed_w = True
             for rel, fr in results.items():
                 for name, r in fr.items():
                     s = _summary(r)
-                    if s['clob'] or s['vecW'] or s['df'] or len(s['vecMC']) != 0 or s['sp_bad']:
-                        new[name] = s
+                    s['gprw'] = sorted(wt.get(name, asmint.CALLER))
+                    new[name] = s
             changed = {n for n in set(new) | set(summaries) if new.get(n) != summaries.get(n)}
             summaries = new
             if not changed or it >= 8:
